@@ -477,6 +477,10 @@ pub trait BackendTransaction {
                     let (inter, fp) = self.filter2idl(f_in, thres)?;
                     // It's an and not, so we need to wrap the plan accordingly.
                     plan.push(FilterPlan::AndNot(Box::new(fp)));
+                    // A term that is not fully indexed is only a superset of the entries it
+                    // matches. Subtracting a superset would drop entries that must be returned,
+                    // so such a term is left to the entry filter test.
+                    let inter_exact = matches!(inter, IdList::Indexed(_));
                     cand_idl = match (cand_idl, inter) {
                         (IdList::Indexed(ia), IdList::Indexed(ib)) => {
                             let r = ia.andnot(ib);
@@ -494,7 +498,7 @@ pub trait BackendTransaction {
                         (IdList::Indexed(ia), IdList::Partial(ib))
                         | (IdList::Partial(ia), IdList::Indexed(ib))
                         | (IdList::Partial(ia), IdList::Partial(ib)) => {
-                            let r = ia.andnot(ib);
+                            let r = if inter_exact { ia.andnot(ib) } else { ia };
                             // DO trigger threshold on partials, because we have to apply the filter
                             // test anyway, so we may as well shortcut at this point.
                             if r.below_threshold(thres) && f_rem_count > 0 {
@@ -509,7 +513,7 @@ pub trait BackendTransaction {
                         | (IdList::PartialThreshold(ia), IdList::PartialThreshold(ib))
                         | (IdList::PartialThreshold(ia), IdList::Partial(ib))
                         | (IdList::Partial(ia), IdList::PartialThreshold(ib)) => {
-                            let r = ia.andnot(ib);
+                            let r = if inter_exact { ia.andnot(ib) } else { ia };
                             // DO trigger threshold on partials, because we have to apply the filter
                             // test anyway, so we may as well shortcut at this point.
                             if r.below_threshold(thres) && f_rem_count > 0 {
